@@ -776,7 +776,7 @@ class GraphProcessor:
 
             # If precise information is unavailable, assume all nodes are active
             if nodes_existence is None:
-                nodes_existence = np.ones((n_comb, len(self.design_variable_nodes)), dtype=bool)*multiplier
+                nodes_existence = np.ones((n_comb, len(self.design_variable_nodes)), dtype=bool)
 
         cont_mask = np.array([not node.is_discrete for node in self.design_variable_nodes], dtype=bool)
         n_opts = []
